@@ -115,6 +115,9 @@ class Translate(BaseTranslateFilter, TranslatableFilter):
         plural = kwargs.pop("plural", None)
         n = _count(kwargs.get("count"))
 
+        if plural is not None and n is None:
+            n = 1  # count defaults to one
+
         if plural is not None and n is not None:
             plural = to_liquid_string(
                 plural,
